@@ -16,10 +16,12 @@ package middlewares
 
 import (
 	"net/url"
+	"strings"
 
 	"github.com/gofiber/fiber/v2"
 	"github.com/versity/versitygw/metrics"
 	"github.com/versity/versitygw/s3api/controllers"
+	"github.com/versity/versitygw/s3api/utils"
 	"github.com/versity/versitygw/s3err"
 	"github.com/versity/versitygw/s3log"
 )
@@ -30,7 +32,48 @@ func DecodeURL(logger s3log.AuditLogger, mm *metrics.Manager) fiber.Handler {
 		if err != nil {
 			return controllers.SendResponse(ctx, s3err.GetAPIError(s3err.ErrInvalidURI), &controllers.MetaOpts{Logger: logger, MetricsMng: mm})
 		}
+		// Bucket, key and the ids that become path components in a backend
+		// are taken as opaque names: anything that a file system would
+		// resolve to a different location is refused here, once, for every
+		// route.
+		if !isPathConfined(ctx, unescp) {
+			return controllers.SendResponse(ctx, s3err.GetAPIError(s3err.ErrInvalidURI), &controllers.MetaOpts{Logger: logger, MetricsMng: mm})
+		}
 		ctx.Path(unescp)
 		return ctx.Next()
 	}
+}
+
+func isPathConfined(ctx *fiber.Ctx, path string) bool {
+	if path != "" && path != "/" {
+		bucket, key, hasKey := strings.Cut(strings.TrimPrefix(path, "/"), "/")
+		if !utils.IsPathComponentValid(bucket) {
+			return false
+		}
+		if hasKey && key != "" && !utils.IsObjectNameValid(key) {
+			return false
+		}
+	}
+	for _, q := range []string{"versionId", "uploadId"} {
+		if v := ctx.Query(q); v != "" && !utils.IsPathComponentValid(v) {
+			return false
+		}
+	}
+	if src := ctx.Get("X-Amz-Copy-Source"); src != "" {
+		src, err := url.QueryUnescape(src)
+		if err != nil {
+			return false
+		}
+		src = strings.TrimPrefix(src, "/")
+		if i := strings.LastIndex(src, "?versionId="); i != -1 {
+			if !utils.IsPathComponentValid(src[i+len("?versionId="):]) {
+				return false
+			}
+			src = src[:i]
+		}
+		if !utils.IsObjectNameValid(src) {
+			return false
+		}
+	}
+	return true
 }
